@@ -328,7 +328,12 @@ func (l *Lexer) readHTML() string {
 
 		l.readChar()
 	}
-	return strings.Replace(l.input[position:l.position], "\\<%", "<%", -1)
+	end := l.position
+	if end > len(l.input) {
+		// the escape look-ahead above may step past the end of the input
+		end = len(l.input)
+	}
+	return strings.Replace(l.input[position:end], "\\<%", "<%", -1)
 }
 
 func isLetter(ch byte) bool {
